@@ -22,9 +22,10 @@ except ImportError:
 VARIANTS = {0: "intrusive/dynamic_buffer", 1: "container/dynamic_buffer", 2: "intrusive/static_buffer",
             3: "container/static_buffer", 4: "container/default traits (sync::spin, backoff::Default)"}
 CAPS = [1, 3, 7, 15]
-LOCK_FUEL = 3000
-HEAP_FUEL = 3000
-MIN_PUSH_STEPS = 6      # a push performs at least 6 atomic accesses (P1, P2, P3, P4 + the top check / P2f)
+STEP_FUEL = 20000       # global step limit of a run (both sides)
+LOCK_FUEL = 30000       # spin / heapify loop fuel of the model: larger than the step limit, never the first to run out
+HEAP_FUEL = 30000
+STEPS_PER_OP = 40       # more atomic accesses than one uncontended operation performs at capacity <= 15
 
 
 # ---------------------------------------------------------------------------------------------------
@@ -88,43 +89,39 @@ def gen_cases(ctx, n, tag="g"):
         c = {"id": "%s%d" % (tag, i), "cfg": [cap, LOCK_FUEL, HEAP_FUEL, variant], "threads": threads, "kind": kind}
         if kind == "mixed":
             c["sched"] = rand_sched(rng, nt)
-        elif kind in ("seq", "single"):
-            c["sched"] = [0] * 4000       # lowest-numbered unfinished thread runs: a sequential history
+        elif kind == "single":
+            c["sched"] = []
+        elif kind == "seq":
+            # thread 0 runs alone to its end, then thread 1, ...: a sequential history (nobody ever waits for a lock)
+            c["sched"] = [0] * (STEPS_PER_OP * sum(len(t) for t in threads) + nt + 5)
         else:
-            # pushers are threads 0..npush-1.  A prefix that only names pushers and is too short for any of them
-            # to finish, then thread 0 (= lowest unfinished thread) until every pusher is done.  The exact number
-            # of steps of the push phase is measured on the model (probe run) and the pop phase schedule appended.
-            minops = min(len(threads[t]) for t in range(npush))
-            pre = rand_sched(rng, nt, 0, npush, length=rng.below(MIN_PUSH_STEPS * minops + 1))[:MIN_PUSH_STEPS * minops]
-            c["prefix"] = pre
+            # pushers are threads 0..npush-1, poppers the others.  The schedule of the push phase is measured on the
+            # model: the pushers alone are run under a random prefix followed by round-robin, and the sequence of
+            # thread choices of that run (every entry names a thread that is enabled at that step) is replayed with all
+            # threads present; the poppers start only after the last pusher has finished.
             c["npush"] = npush
+            c["probe"] = {"id": c["id"], "cfg": c["cfg"], "threads": threads[:npush], "sched": rand_sched(rng, npush)}
             c["tail"] = rand_sched(rng, nt, npush, nt)
-            c["sched"] = pre + [0] * 4000
+            c["sched"] = []
         cases.append(c)
     return cases
 
 
 def finish_phase_schedules(ctx, model, cases):
-    """probe run of the phase cases on the model: count the steps of the push phase, build the final schedule"""
+    """probe run of the push phase of the phase-structured cases on the model; builds their final schedule"""
     ph = [c for c in cases if c["kind"] == "phase"]
     if not ph:
         return
     cf = os.path.join(ctx.work, "probe.txt")
-    conc_check.write_cases(cf, ph)
-    rc, out = vcheck.sh("%s %d < %s" % (model, 20000, cf), timeout=600)
+    conc_check.write_cases(cf, [c["probe"] for c in ph])
+    rc, out = vcheck.sh("%s %d < %s" % (model, STEP_FUEL, cf), timeout=600)
     logs = conc_check.parse_logs(out)
     for c in ph:
         m = logs.get(c["id"])
-        steps = 0; last = 0
-        for l in (m["lines"] if m else []):
-            t = l.split(" ")
-            if t[1] == "ev":
-                continue
-            steps += 1
-            if int(t[0]) < c["npush"]:
-                last = steps
-        c["push_phase_steps"] = last
-        c["sched"] = c["prefix"] + [0] * max(0, last - len(c["prefix"])) + c["tail"]
+        choices = [int(l.split(" ")[0]) for l in (m["lines"] if m else []) if l.split(" ")[1] != "ev"]
+        c["push_phase_steps"] = len(choices)
+        c["sched"] = choices + c["tail"]
+        del c["probe"]
 
 
 # ---------------------------------------------------------------------------------------------------
@@ -299,7 +296,8 @@ def public_case(c):
 
 def evaluate(ctx, model, impl, lin, cases, tag, stats):
     """run cases on both sides; returns (first divergence or None, list of (what, case, detail))"""
-    rc1, mlog, rc2, ilog, raw = conc_check.run_both(ctx, model, impl, cases, tag=tag, fuel=20000)
+    rc1, mlog, rc2, ilog, raw = conc_check.run_both(ctx, model, impl, cases, tag=tag, fuel=STEP_FUEL)
+    if os.environ.get("VERIF_VERBOSE"): ctx.log("%s: %d cases run on model and implementation" % (tag, len(cases)))
     found = []; first_div = None; linq = []
     hang = None
     for l in raw.split("\n"):
@@ -350,8 +348,10 @@ def evaluate(ctx, model, impl, lin, cases, tag, stats):
                 stats["lin_concurrent"] += 1
         else:
             stats["overlapping_histories"] += 1
+    if os.environ.get("VERIF_VERBOSE"): ctx.log("%s: logs compared, monitors done" % tag)
     if linq:
         verdict = run_lincheck(ctx, lin, linq)
+        if os.environ.get("VERIF_VERBOSE"): ctx.log("%s: lincheck done (%d histories)" % (tag, len(linq)))
         for c, h in linq:
             v = verdict.get(c["id"])
             stats["lincheck"][v] = stats["lincheck"].get(v, 0) + 1
@@ -380,6 +380,7 @@ def run(ctx):
     impl = vcheck.cxx_build(os.path.join(vcheck.VERIF, "harness/C11/main.cpp"), os.path.join(ctx.work, "harness"), hook=True, link_cds=True)
     lin = build_lincheck(ctx)
     stats = new_stats()
+    if os.environ.get("VERIF_VERBOSE"): ctx.log("coq obligations, model, harness and lincheck built")
 
     if ctx.replay:
         rep = json.load(open(ctx.replay))
